@@ -1,7 +1,13 @@
-//! Verification model of `ahash`: AHashMap is the real std HashMap behind a fixed, trivial hasher.
-use std::collections::HashMap;
+//! Verification model of `ahash`: `AHashMap` is an association list (insertion order) with the subset of the
+//! `HashMap` API that shred uses. Contract kept: at most one entry per key (`Eq`), `insert` replaces and returns
+//! the old value, `remove` returns the value, look-ups find exactly the entry with an equal key. hashbrown itself
+//! (SIMD group probing) is out of reach of CBMC; nothing in shred depends on iteration order or hashing.
+//! `entry()` is NOT modelled (its return type is std's `Entry`, which only a real std map can produce): it panics,
+//! so a harness that reaches it fails loudly instead of being silently wrong.
+use std::borrow::Borrow;
 use std::hash::{BuildHasher, Hasher};
-use std::ops::{Deref, DerefMut};
+use std::marker::PhantomData;
+
 #[derive(Clone, Default)]
 pub struct RandomState;
 pub struct ModelHasher(u64);
@@ -9,21 +15,60 @@ impl Hasher for ModelHasher {
     fn finish(&self) -> u64 { self.0 }
     fn write(&mut self, bytes: &[u8]) { for b in bytes { self.0 = self.0.wrapping_mul(31).wrapping_add(*b as u64); } }
     fn write_u64(&mut self, x: u64) { self.0 = self.0.wrapping_mul(31).wrapping_add(x); }
-    fn write_usize(&mut self, x: usize) { self.write_u64(x as u64) }
-    fn write_u8(&mut self, x: u8) { self.write_u64(x as u64) }
-    fn write_u32(&mut self, x: u32) { self.write_u64(x as u64) }
-    fn write_u128(&mut self, x: u128) { self.write_u64(x as u64); self.write_u64((x >> 64) as u64) }
 }
 impl BuildHasher for RandomState { type Hasher = ModelHasher; fn build_hasher(&self) -> ModelHasher { ModelHasher(0) } }
 impl RandomState { pub fn new() -> Self { RandomState } }
-pub struct AHashMap<K, V, S = RandomState>(HashMap<K, V, S>);
+
+pub struct AHashMap<K, V, S = RandomState> { items: Vec<(K, V)>, _s: PhantomData<S> }
+
 impl<K, V> AHashMap<K, V, RandomState> {
-    pub fn new() -> Self { AHashMap(HashMap::with_hasher(RandomState)) }
+    pub fn new() -> Self { AHashMap { items: Vec::new(), _s: PhantomData } }
 }
-impl<K, V, S: Default> Default for AHashMap<K, V, S> { fn default() -> Self { AHashMap(HashMap::with_hasher(S::default())) } }
-impl<K, V, S> Deref for AHashMap<K, V, S> { type Target = HashMap<K, V, S>; fn deref(&self) -> &Self::Target { &self.0 } }
-impl<K, V, S> DerefMut for AHashMap<K, V, S> { fn deref_mut(&mut self) -> &mut Self::Target { &mut self.0 } }
-impl<K: Eq + std::hash::Hash, V, S: BuildHasher + Default> FromIterator<(K, V)> for AHashMap<K, V, S> {
-    fn from_iter<I: IntoIterator<Item = (K, V)>>(it: I) -> Self { let mut m = HashMap::with_hasher(S::default()); m.extend(it); AHashMap(m) }
+impl<K, V, S> Default for AHashMap<K, V, S> { fn default() -> Self { AHashMap { items: Vec::new(), _s: PhantomData } } }
+
+impl<K, V, S> AHashMap<K, V, S> {
+    pub fn len(&self) -> usize { self.items.len() }
+    pub fn is_empty(&self) -> bool { self.items.is_empty() }
+    pub fn keys(&self) -> impl Iterator<Item = &K> { self.items.iter().map(|kv| &kv.0) }
+    pub fn values(&self) -> impl Iterator<Item = &V> { self.items.iter().map(|kv| &kv.1) }
+    pub fn iter(&self) -> Iter<'_, K, V> { Iter { inner: self.items.iter() } }
+    pub fn clear(&mut self) { self.items.clear() }
+    fn position<Q: ?Sized + Eq>(&self, k: &Q) -> Option<usize> where K: Borrow<Q> {
+        let mut i = 0;
+        while i < self.items.len() {
+            if self.items[i].0.borrow() == k { return Some(i); }
+            i += 1;
+        }
+        None
+    }
+    pub fn get<Q: ?Sized + Eq>(&self, k: &Q) -> Option<&V> where K: Borrow<Q> {
+        match self.position(k) { Some(i) => Some(&self.items[i].1), None => None }
+    }
+    pub fn get_mut<Q: ?Sized + Eq>(&mut self, k: &Q) -> Option<&mut V> where K: Borrow<Q> {
+        match self.position(k) { Some(i) => Some(&mut self.items[i].1), None => None }
+    }
+    pub fn contains_key<Q: ?Sized + Eq>(&self, k: &Q) -> bool where K: Borrow<Q> { self.position(k).is_some() }
+    pub fn remove<Q: ?Sized + Eq>(&mut self, k: &Q) -> Option<V> where K: Borrow<Q> {
+        match self.position(k) { Some(i) => Some(self.items.swap_remove(i).1), None => None }
+    }
+    pub fn insert(&mut self, k: K, v: V) -> Option<V> where K: Eq {
+        match self.position(&k) {
+            Some(i) => Some(std::mem::replace(&mut self.items[i].1, v)),
+            None => { self.items.push((k, v)); None }
+        }
+    }
+    /// not modelled, see the crate documentation
+    pub fn entry(&mut self, _k: K) -> std::collections::hash_map::Entry<'_, K, V> {
+        panic!("ahash model: HashMap::entry is not modelled")
+    }
 }
-impl<'a, K, V, S> IntoIterator for &'a AHashMap<K, V, S> { type Item = (&'a K, &'a V); type IntoIter = std::collections::hash_map::Iter<'a, K, V>; fn into_iter(self) -> Self::IntoIter { self.0.iter() } }
+
+pub struct Iter<'a, K, V> { inner: std::slice::Iter<'a, (K, V)> }
+impl<'a, K, V> Iterator for Iter<'a, K, V> {
+    type Item = (&'a K, &'a V);
+    fn next(&mut self) -> Option<Self::Item> { self.inner.next().map(|kv| (&kv.0, &kv.1)) }
+}
+impl<K: Eq, V, S> FromIterator<(K, V)> for AHashMap<K, V, S> {
+    fn from_iter<I: IntoIterator<Item = (K, V)>>(it: I) -> Self { let mut m = AHashMap { items: Vec::new(), _s: PhantomData }; for (k, v) in it { m.insert(k, v); } m }
+}
+impl<'a, K, V, S> IntoIterator for &'a AHashMap<K, V, S> { type Item = (&'a K, &'a V); type IntoIter = Iter<'a, K, V>; fn into_iter(self) -> Self::IntoIter { self.iter() } }
